@@ -217,6 +217,10 @@ func (tc *typechecker) checkConstantDeclaration(node *ast.Const) {
 			constType = ti.Type
 		} else {
 			constType = typ.Type
+			// Convert the constant value to the type.
+			if c, err := constValue.representedBy(constType); err == nil {
+				constValue = c
+			}
 		}
 
 		// Declare the constant in the current block/scope.
